@@ -343,13 +343,16 @@ Definition cty_eqb (a b : cty) : bool :=
 
 Inductive form :=
 | FNextOp | FNextAttr | FValueOp | FValueAttr | FPushOp | FPushAttr
-| FSlice (root : vk) | FElem (root : vk)
+| FSlice (root : vk) | FView (root : vk) | FElem (root : vk)
 | FDeclSig | FDeclVar | FDeclStatic
 | FPortIn | FPortOut
-| FIfA | FIfB | FRetA | FRetB.
+| FIfA | FIfB | FRetA | FRetB
+(* if-expression / two-return function / select_with whose OTHER option has its own type [o]
+   (Null, Full, a narrower run-time value): the new value first (A) or second (B) *)
+| FMerge3A (o : cty) | FMerge3B (o : cty).
 
 Definition root_kind (f : form) (tgt : cty) : cty :=
-  match f with FSlice k => retag k tgt | _ => tgt end.
+  match f with FSlice k | FView k => retag k tgt | _ => tgt end.
 
 (** statement forms: the trial assignment of the setter replacement, then format_cast in the backend *)
 Definition stmt_ok (vt src tgt : cty) : bool := trial src tgt && emits vt tgt src.
@@ -370,7 +373,8 @@ Definition decl_ok (src tgt : cty) : bool := if is_runtime src then emits tgt tg
 Definition assign_ok (f : form) (src tgt : cty) : bool :=
   match f with
   | FNextOp | FNextAttr | FValueOp | FValueAttr | FPushOp | FPushAttr => stmt_ok tgt src tgt
-  | FSlice k => match vec_of tgt with Some _ => stmt_ok (retag k tgt) src tgt | None => false end
+  (* [t[hi:lo].view <<= s] and [t.view <<= s]: the target type is the view's, the VHDL object keeps the root's kind *)
+  | FSlice k | FView k => match vec_of tgt with Some _ => stmt_ok (retag k tgt) src tgt | None => false end
   | FElem _ => match tgt with CBit => stmt_ok tgt src tgt | _ => false end
   | FDeclSig | FDeclVar => decl_ok src tgt
   | FDeclStatic => ctor src tgt
@@ -380,7 +384,22 @@ Definition assign_ok (f : form) (src tgt : cty) : bool :=
   | FPortOut => is_runtime src && trial src tgt && trial tgt src && cty_eqb src tgt
   | FIfA | FRetA => merge_ok src tgt tgt
   | FIfB | FRetB => merge_ok tgt src tgt
+  | FMerge3A o => merge_ok src o tgt
+  | FMerge3B o => merge_ok o src tgt
   end.
+
+(** the statement for a merge of two options of different types: both convert to the target, directly or through
+    the type of one of them (the join type; C05_join_sound) *)
+Definition via (r a o tgt : cty) : bool := is_runtime r && doc_ok a r && doc_ok o r && doc_ok r tgt.
+Definition m3_doc (a o tgt : cty) : bool := doc_ok a tgt && doc_ok o tgt || via a a o tgt || via o a o tgt.
+(** the value that reaches the target from option [x] of the pair (a, o) *)
+Definition m3_val (x a o tgt : cty) (v : Z) : Z :=
+  if doc_ok a tgt && doc_ok o tgt then conv_val x tgt v
+  else if via a a o tgt then conv_val a tgt (conv_val x a v)
+  else conv_val o tgt (conv_val x o v).
+
+Definition doc_form (f : form) (src tgt : cty) : bool :=
+  match f with FMerge3A o | FMerge3B o => m3_doc src o tgt | _ => doc_ok src tgt end.
 
 (** ** the tree with /verif/seeded/_proposed_fixes/C05_decl_trial_assign.diff: declarations with a run-time vector as
     initial value make the trial assignment of the setters (harness: C05_MODEL=declfix) *)
